@@ -109,16 +109,21 @@ def explained_by_adjacent_sites(x, wits):
             return False
     return True
 
-def explained_by_softsite_missing(x, wits):
-    """D14b (rule look-behind evaluated per graph node): a missing peptide matches iff EVERY obliged
-    derivation has an endpoint at, or contains, a SOFT site: a rule site that exists only through an
-    alternative with look-behind (e.g. trypsin's (?<=W)K(?=P))."""
+def explained_by_softsite_missing(x, wits, recs=None):
+    """D14b (rule look-behind evaluated per graph node, on the whole reading frame): a missing peptide matches
+    iff EVERY obliged derivation has an endpoint at, or contains, a SOFT site: a rule site that exists only
+    through an alternative with look-behind (e.g. trypsin's (?<=W)K(?=P)), including sites that appear only
+    when the residues upstream of the translation start are visible to the look-behind."""
     if not wits:
         return False
-    alls = O.call_many([sites_req(x, w['aas']) for w in wits])
-    firms = O.call_many([('cv_firm_sites', [x, w['aas']]) for w in wits])
-    for w, a, f in zip(wits, alls, firms):
-        soft = [e for e in a if e not in f]
+    if recs is not None:
+        masks = [[1 if any(r is h for h in w['H']) else 0 for r in recs] for w in wits]
+        softs = O.call_many([('cv_soft_sites', [x, m, w['start']]) for m, w in zip(masks, wits)])
+    else:
+        alls = O.call_many([sites_req(x, w['aas']) for w in wits])
+        firms = O.call_many([('cv_firm_sites', [x, w['aas']]) for w in wits])
+        softs = [[e for e in a if e not in f] for a, f in zip(alls, firms)]
+    for w, soft in zip(wits, softs):
         if not any(w['a'] <= e <= w['b'] for e in soft):
             return False
     return True
